@@ -283,4 +283,23 @@ PROPS = {
         "assumptions": [],
         "partial": "the theorems cover the tree transformations (id replacement, check, marker, noise reduction, liveness of exported nodes); that sending the prepared nodes to the store and reading them back yields the same tree is established by the correspondence run (model = store model of C01/C05), not by a theorem",
     },
+    "C02": {
+        "required_theorems": ["c02_no_write_lost", "c02_points_converge", "c02_equal_hash_is_skipped", "gen_sync_pinned"],
+        "n": {"quick": 300, "thorough": 6000},
+        "thorough_seeds": 3,
+        "rule": "two in-process instances (downstream A with root RA, upstream B with root RB holding RA after a first catch-up); per case a group G under RA: a shared base of 1-4 nodes with points built on A "
+                "(nodes created the SendNode way: tombstone 0 + node type; 1 in 14 bare; 1 case in 5 with a node placed under two parents), two catch-up passes, then 1-6 divergent writes on A and on B "
+                "(node points and edge points on shared nodes incl. the same identities on both sides, new nodes with children and points on one side, deletions, undeletions, delete+undelete), passes in the "
+                "middle, and three final passes. A pass = client.VerifSyncOnce = the real SyncClient.syncNode(RA, G) over real connections (no-echo), without the Run loop. All writes carry the wall clock of "
+                "their token; dumps report a time as the index of the token during which it was taken (the model uses scattered logical times with the same order). Observation = op results + the subtree of G "
+                "on A and on B (deleted nodes included; type, parent, points, edge points with times). The model is run on the same tokens and must reproduce BOTH dumps exactly; oracle = both dumps equal as "
+                "sets of nodes and every identity written shows the newest write; distinct = distinct case line",
+        "trusted": ["embedded nats-server / nats.go request-reply", "modernc SQLite as in C05", "CRC-32 (modelled bit-serially): the model's hash decisions are the implementation's as long as no 32-bit collision happens in one of the two and not the other"],
+        "modelled": ["client/sync.go syncNode, sendNodesRemote, sendNodesLocal and client.SendNode modelled by hand on two copies of the store model (Siot/Model/Sync.lean); shape re-extracted every run (gen_sync_pinned)",
+                     "the Run loop of the sync client — real-time forwarding in both directions, (re)connection, the period ticker, discovery of new upstream nodes through up.<root>.*.* — is NOT modelled: link loss and recovery are rendered as 'no pass happens' / 'a pass happens'",
+                     "time.Now() readings inside a pass are a parameter (wall : Int -> Int) of the model and of the theorems",
+                     "the syncCount bookkeeping points the client writes to its own node are ignored"],
+        "assumptions": [],
+        "partial": "proved: a pass never loses or reverts a write on either side (any tree, any hashes), and the point exchange for one node/edge leaves both sides with the newest point per identity. Not proved, and false in general (two open findings): that the hash comparison reaches every node that differs, i.e. convergence of whole trees; real-time forwarding is outside the model",
+    },
 }
